@@ -290,10 +290,10 @@ pub fn c16(ctx: &CheckCtx) -> i32 {
          Non-trivial: value with a >=16-digit float, an integer beyond i64 or nesting >= 2; type of depth >= 3; IR with a fold.",
     );
     report.assume("enum values are excluded from the untagged-JSON sub-check in the main search (listed finding: untagged enums read back as strings) and covered by a second search that tolerates exactly that signature");
-    let cases = ctx.cases(1_200_000, 30_000_000);
+    let cases = ctx.cases(3_000_000, 50_000_000);
     let res = search(ctx, "c16-value", cases, 8, 120, |b, s, k| c16_value_case(b, s, k, false, true));
     report.absorb(res, &|b| json!({"value": format!("{:?}", gen_fv(&mut Choices::new(b), FvGen { enums: true, max_depth: 3 }, 0))}));
-    let cases = ctx.cases(120_000, 1_000_000);
+    let cases = ctx.cases(300_000, 3_000_000);
     let res = search(ctx, "c16-value-listed", cases, 8, 120, |b, s, k| {
         let mut scratch = Stats::default();
         let v = c16_value_case(b, &mut scratch, k, true, true);
@@ -303,10 +303,10 @@ pub fn c16(ctx: &CheckCtx) -> i32 {
         v
     });
     report.absorb(res, &|b| json!({"value": format!("{:?}", gen_fv(&mut Choices::new(b), FvGen { enums: true, max_depth: 3 }, 0))}));
-    let cases = ctx.cases(400_000, 5_000_000);
+    let cases = ctx.cases(1_000_000, 10_000_000);
     let res = search(ctx, "c16-type", cases, 4, 64, c16_type_case);
     report.absorb(res, &|b| json!({"type": gen_ty(&mut Choices::new(b)).render()}));
-    let cases = ctx.cases(60_000, 1_000_000);
+    let cases = ctx.cases(150_000, 2_000_000);
     let res = search(ctx, "c16-ir", cases, WORLD_MIN_LEN, WORLD_MAX_LEN, |b, s, k| c16_ir_case(b, s, k, &cfg));
     report.absorb(res, &|b| crate::checks::world::render_world_case(b, &cfg));
     report.finish()
